@@ -45,8 +45,10 @@ def make_array(kind, elements, subtype="float64"):
     typ = pa.from_numpy_dtype(dt)
     for _ in range(DEPTH[kind] + 1):
         typ = pa.list_(typ)
-    if subtype == "float32":
-        # pyarrow refuses python ints beyond 2^24 for float32 (even when exactly representable): hand it floats
+    def _big(x):
+        return any(_big(y) for y in x) if isinstance(x, list) else (isinstance(x, int) and abs(x) >= 2 ** 62)
+    if subtype == "float32" or (subtype == "float64" and _big(list(elements))):
+        # pyarrow refuses python ints beyond 2^24 for float32 (even when exactly representable) and beyond 2^63 for float64: hand it floats
         def fl(x):
             return None if x is None else ([fl(y) for y in x] if isinstance(x, list) else float(x))
         elements = [fl(e) for e in elements]
